@@ -1,12 +1,63 @@
 /-
 Driver commands of property C01 (core Lean only).  Command names start with "c01.".
+
+  c01.write <ops>            ops = comma-separated  w<len> | f | t | c   (Write of <len> bytes, Flush, Wait, Close)
+      -> <results>|<lengths of the queued blocks>|<length of the active block>
+         results: comma-separated  ok<n> | closed ;  lists are "-" when empty
+  c01.read <blocklens> <ops> blocklens = comma-separated decoded block lengths of the file (in file order),
+                             ops = comma-separated  r<len> | b   (Read with len(p)=<len>, ReadByte)
+      -> comma-separated  <bytes returned>:<index of the first returned byte in the flat data or ->:<1 if io.EOF else 0>
+         or "newreader-eof" when the file has no member
 -/
 import Hts.Drv.Util
+import Hts.Model.BgzfWriter
+import Hts.Model.BgzfSeqRead
 namespace Hts.Drv.C01
-open Hts.Drv
+open Hts.Drv Hts.Model
+
+def joinOr (xs : List String) : String := if xs.isEmpty then "-" else ",".intercalate xs
+
+def splitList (s : String) : List String := if s == "-" then [] else s.splitOn ","
+
+def parseWOp (t : String) : Option (BgzfWriter.Op Unit) :=
+  if t == "f" then some .flush
+  else if t == "t" then some .wait
+  else if t == "c" then some .close
+  else if t.startsWith "w" then (t.drop 1).toNat?.map (fun n => .write (List.replicate n ()))
+  else none
+
+def showRes : BgzfWriter.Res → String
+  | .ok n => s!"ok{n}"
+  | .errClosed => "closed"
+
+def parseROp (t : String) : Option BgzfSeqRead.Op :=
+  if t == "b" then some .readByte
+  else if t.startsWith "r" then (t.drop 1).toNat?.map .read
+  else none
+
+/-- blocks whose bytes are their own index in the flat data -/
+def mkBlocks : Nat → List Nat → List (List Nat)
+  | _, [] => []
+  | start, n :: ns => (List.range' start n) :: mkBlocks (start + n) ns
+
+def showRead (r : List Nat × Bool) : String :=
+  let first := match r.1 with | [] => "-" | a :: _ => toString a
+  s!"{r.1.length}:{first}:{if r.2 then 1 else 0}"
 
 def handle (cmd : String) (args : List String) : Option String :=
   match cmd, args with
+  | "c01.write", [ops] => do
+    let ops ← (splitList ops).mapM parseWOp
+    let (s, rs) := BgzfWriter.run BgzfWriter.BlockSize BgzfWriter.blockSize_pos BgzfWriter.State.init ops
+    some s!"{joinOr (rs.map showRes)}|{joinOr (s.emitted.map (fun b => toString b.length))}|{s.active.length}"
+  | "c01.read", [lens, ops] => do
+    let lens ← (splitList lens).mapM (·.toNat?)
+    let ops ← (splitList ops).mapM parseROp
+    match BgzfSeqRead.init (mkBlocks 0 lens) with
+    | none => some "newreader-eof"
+    | some s =>
+      let (_, rs) := BgzfSeqRead.run s ops
+      some (joinOr (rs.map showRead))
   | _, _ => none
 
 end Hts.Drv.C01
